@@ -20,7 +20,7 @@
    oracle of the suites. *)
 From Coq Require Import List Arith Bool.
 Import ListNotations.
-From Ebu Require Import Bus.BusModel Bus.BusInv.
+From Ebu Require Import Bus.BusModel Bus.BusInv Bus.BusLeaf.
 
 Theorem C03_seq_lock_owner : forall P cfg s, reachable P cfg s ->
   forall a b ca cb rid, assoc_get (code s) a = Some ca -> assoc_get (code s) b = Some cb ->
@@ -101,6 +101,36 @@ Theorem C03_progress_mutex_waits_only : forall P cfg s, Pwf P -> reachable P cfg
   exists b s' ls, mstep P cfg s b = Some (s', ls).
 Proof. exact progress_mutex_waits_only. Qed.
 Print Assumptions C03_progress_mutex_waits_only.
+
+(* PROGRESS without any hypothesis about cycles, for a natural class of programs: those whose Sequential handlers do not
+   publish (every subscription of a Sequential handler made anywhere in the program text - by the threads, by handler
+   or hook bodies, by filters - is to a body without a publish action; handlers that are not Sequential, filters, hooks
+   and the panic handler may publish as they like).  In every run of such a program, as long as no goroutine has died
+   of an unrecovered panic, some goroutine can take a step whenever one is unfinished: the frames of Sequential
+   handlers never nest, so whoever waits for a handler mutex holds none. *)
+Theorem C03_progress_when_sequential_handlers_do_not_publish : forall P cfg threads sched,
+  Pwf P -> Pleaf P -> (forall l, In l threads -> okacts P l = true) ->
+  let s := fst (run P cfg (init_state threads) sched) in
+  (forall a rest, assoc_get (code s) a <> Some (ICrashed :: rest)) ->
+  (exists a i rest, assoc_get (code s) a = Some (i :: rest)) ->
+  exists b s' ls, mstep P cfg s b = Some (s', ls).
+Proof. exact progress_when_sequential_handlers_do_not_publish. Qed.
+Print Assumptions C03_progress_when_sequential_handlers_do_not_publish.
+
+(* the class is not empty: a Sequential handler that only queries the registry, an ordinary handler that publishes *)
+Example C03_leaf_program :
+  let P := {| p_bodies := [(0, {| b_acts := [] |}); (1, {| b_acts := [APub 1 5 CtxBg false] |}); (2, {| b_acts := [ACount 0] |})];
+              p_filters := []; p_routes := fun _ => 0; p_nshards := 32; p_pfault := fun _ => PfOk |} in
+  let sq := {| h_fn := 0; h_once := false; h_async := false; h_seq := true; h_ctx := false; h_filter := None; h_body := 2 |} in
+  let pl := {| h_fn := 2; h_once := false; h_async := false; h_seq := false; h_ctx := false; h_filter := None; h_body := 1 |} in
+  Pleaf P /\ Pwf P /\ okacts P [ASub 0 sq; ASub 0 pl; ASub 1 sq; APub 0 1 CtxBg false] = true.
+Proof.
+  cbv zeta. split; [|split; [|reflexivity]].
+  - split; [|intros f fl E; discriminate E].
+    intros b. destruct b as [|[|[|b]]]; reflexivity.
+  - split; [|intros f fl E; discriminate E].
+    intros b a. destruct b as [|[|[|b]]]; cbn; intros H; repeat (destruct H as [<-|H]; [reflexivity|]); destruct H.
+Qed.
 
 (* the documented exception: a synchronous Sequential handler publishes an event that is delivered back to itself;
    the goroutine then waits for the mutex it holds itself, for ever *)
